@@ -38,7 +38,10 @@ MANIFEST = {
             'known findings are listed in known_findings/C38.json (F-C38-2 getitem beyond the array and F-C38-10 powmod n=1 were '
             'repaired in /repo and are ordinary cases again: f[i] with i >= padded length must give a secure 0 in the async '
             'simulator with m=1 and m=3), two of the open ones are defects of the gfpx oracle over GF(2) (evaluation and '
-            'reverse are then checked against independent references). Message-size traces are compared for two runs with equal '
+            'reverse are then checked against independent references). A concurrency stream (m=3, t=1) launches 3-6 divmod/floordiv/mod/gcd/gcdext/mul operations with '
+            'operands of different padded lengths without awaiting, then issues 30 short awaited multiplications while they run, '
+            'under RandomOrder/ReverseLinks/Hold delivery schedules, and compares all results with gfpx. Hangs are decided by '
+            'simulator rounds (not seconds); incomplete cases are re-run alone in a fresh simulator. Message-size traces are compared for two runs with equal '
             'padded lengths and different values on one batch (p=101, m=3, operations without retry loops). Trusted: Coq kernel, '
             'simulator, gfpx as the specification.',
     'technique': 'Coq proof on padded coefficient lists + simulator-run differential check against gfpx and the vm_compute model',
